@@ -536,7 +536,9 @@ class Frac:
 
     def inv(self):
         if self.num.is_zero():
-            raise ZeroDivisionError("symbolic division by exact zero")
+            # 1/0: undefined in the real code (inf/nan).  Value 0 with an unsatisfiable guard: harmless
+            # if a nan_to_num'ed copy is multiplied by an exact zero mask, reported by safety otherwise.
+            return Frac(Poly({}), {}, self.guards | frozenset([ZERO_GUARD]))
         c, g, rest = self.num.content()
         # new numerator: den / c ; new denominator factors: monomial g vars + rest
         num = self._den_poly().scale(Q(1) / Q(c))
@@ -680,6 +682,9 @@ class Frac:
         if not self.den: return f'{self.num!r}'
         d = '*'.join(f'({f!r})' + (f'^{e}' if e > 1 else '') for f, e in self.den.items())
         return f'({self.num!r})/{d}'
+
+
+ZERO_GUARD = Poly({})
 
 
 def _coerce(o):
